@@ -13,7 +13,8 @@ PROP = "C08"
 RULE = ("clean passes as in C03 (kinds plain/midnight, header = nominal time of line 1) with garbage injected into the "
         "time fields of a random subset (0-39 %, first line excluded) of the lines: year / day / ms (or POD words) "
         "individually or together, magnitudes from 11 s to years, i.i.d. or clustered, plus adversarial families "
-        "(garbage near the header; day+1 with small ms); fallback clause: backward line numbers, unusable header "
+        "(garbage near the header; day+1 with small ms; a block of up to 39 % of the lines right after the first one on a "
+        "common wrong clock, also on 2600-line passes); fallback clause: backward line numbers, unusable header "
         "(year 0 / 9999+, day 0 / 400+), header hours away. A case = one pass; non-trivial = distinct pass with at "
         "least one corrupted line or a fallback condition")
 ASSUME = ["1 ms float tolerance as in C03", "garbage years stay within numpy's datetime64[Y] string parser range (1..9999)"]
@@ -30,6 +31,14 @@ def corrupt(rng, p, frac, family):
         out = [None] * n
         for i in idx:
             out[i] = tg.fields(p["rec"][i] + off)      # the whole tail runs late by the same amount: times stay increasing
+        return out, idx
+    if family == "block-offset" and k > 0:
+        # a contiguous block right after the first line runs on a wrong clock (one common offset, within the header window)
+        idx = list(range(1, 1 + k))
+        off = rng.choice([90000, -45000, 300000, 15000, -200000])
+        out = [None] * n
+        for i in idx:
+            out[i] = tg.fields(p["rec"][i] + off)
         return out, idx
     if family == "clustered" and k > 0:
         s0 = rng.randrange(1, max(2, n - k))
@@ -80,9 +89,14 @@ def run(res, tier, seed):
             plans.append((fmt, n, 0.3, "near-header", "plain"))
             plans.append((fmt, n, rng.choice([0.1, 0.25, 0.39]), "tail-forward", "plain"))
             plans.append((fmt, n, 0.3, "dayplus", "midnight"))
+            plans.append((fmt, n, rng.choice([0.2, 0.3, 0.39]), "block-offset", "plain"))
+        if l1b.FMT[fmt]["res"] == "gac":   # a long pass: the offset estimate must survive a wrong block of more than 500 lines
+            plans.append((fmt, 2600, rng.choice([0.25, 0.3, 0.38]), "block-offset", "plain"))
     coq = []
     adversarial_fail = []
     scarce_fail = []
+    sanit_fail = []
+    plans.append(("gac_pod", 200, 0.01, "sanitiser-witness", "plain"))
     plans.append(("gac_klm", 50, 0.388, "coq-witness", "plain"))
     plans.append(("gac_pod", 50, 0.388, "coq-witness", "plain"))
     for fmt, n, frac, family, kind in plans:
@@ -91,6 +105,13 @@ def run(res, tier, seed):
             nums = list(range(1, 51))
             p = dict(fmt=fmt, nums=nums, rec=tg.recorded_ms(fmt, nums, start), header=start, start=start, kind="witness",
                      reading="line1", gaps=[])
+        elif family == "sanitiser-witness":   # F-C08-3: stored pass (intact numbers 30, 33.., two gaps)
+            import json as _json
+            import os as _os
+            wit = _json.load(open(_os.path.join(_os.path.dirname(_os.path.abspath(__file__)), "data_c08_f3.json")))
+            nums = wit["nums"]
+            p = dict(fmt=fmt, nums=nums, rec=tg.recorded_ms(fmt, nums, wit["start"]), header=wit["header"], start=wit["start"],
+                     kind="witness", reading="line1", gaps=[(62, 1), (1, 2)])
         else:
             p = tg.clean_pass(rng, fmt, n, kind)
         if p["reading"] != "line1":
@@ -102,6 +123,11 @@ def run(res, tier, seed):
             for i in idx:
                 y, d, ms = tg.fields(p["rec"][i])
                 linef[i] = (y, d + 1, ms + 30000 - 86400000)
+        elif family == "sanitiser-witness":
+            idx = sorted(int(k) for k in wit["line_fields"])
+            linef = [None] * len(p["nums"])
+            for k, f in wit["line_fields"].items():
+                linef[int(k)] = tuple(f)
         else:
             linef, idx = corrupt(rng, p, frac, family)
         data = tg.build(p, line_fields=linef)
@@ -135,6 +161,8 @@ def run(res, tier, seed):
                 adversarial_fail.append(info)
             elif scarce_midnight(ps):
                 scarce_fail.append(info)
+            elif sanitiser_drops_first(p["nums"]) and surv[0] != p["nums"][0] and lf[0] is not None:
+                sanit_fail.append(info)
             else:
                 res.violations.append(("garbage in fewer than 40 % of the lines is not repaired to within 10 s", info))
         res.add_case((fmt, n, frac, family, kind, p["start"], tuple(idx[:5])), len(idx) > 0,
@@ -234,6 +262,8 @@ def run(res, tier, seed):
     res.notes["adversarial_failures_attributed_to_F-C08-1"] = len(adversarial_fail)
     res._c08_known = adversarial_fail
     res._c08_scarce = scarce_fail
+    res._c08_sanit = sanit_fail
+    res.notes["failures_attributed_to_F-C08-3"] = len(sanit_fail)
     res.notes["failures_attributed_to_F-C08-2"] = len(scarce_fail)
     failing, logs = common.coq_eval("c08_times", "From PV Require Import M_Times Gen_Consts.", "(check_times %s)" % TH,
                                     [c for c, _ in coq], shard=12, ctype=CTYPE)
@@ -279,10 +309,30 @@ def scarce_midnight(p):
     return before < len(p["rec"]) and before * 100 < len(p["rec"])
 
 
+def sanitiser_drops_first(nums):
+    """Class predicate of F-C08-3, decided on the INPUT line numbers alone (all intact, increasing): the documented
+    statistical rule of the line-number sanitising (>= 50 records off the median offset, mean/median of those deviations
+    < 3: threshold = mean + 3 standard deviations, which can be far below 500 lines) excludes the FIRST record although
+    its number is correct -- the time repair then starts from the second record."""
+    import statistics
+    n = len(nums)
+    offs = [x - (i + 1) for i, x in enumerate(nums)]
+    med = statistics.median(offs)
+    diffs = [abs(o - med) for o in offs]
+    nz = [x for x in diffs if x > 0]
+    if len(nz) < 50 or any(b <= a for a, b in zip(nums, nums[1:])):
+        return False
+    mean = sum(nz) / len(nz)
+    if mean / statistics.median(nz) >= 3:
+        return False
+    std = statistics.pstdev(nz)
+    return diffs[0] > mean + 3 * std
+
+
 def known(res):
     for f in common.known_findings(PROP):
         if f["status"] != "open":
             continue
-        hits = getattr(res, "_c08_known" if f["id"] == "F-C08-1" else "_c08_scarce", [])
+        hits = getattr(res, {"F-C08-1": "_c08_known", "F-C08-2": "_c08_scarce", "F-C08-3": "_c08_sanit"}[f["id"]], [])
         if hits:
             res.known.append("%s (%d generated passes of this class failed in this run)" % (f["line"], len(hits)))
